@@ -1,4 +1,5 @@
 import functools
+import os
 from tempfile import SpooledTemporaryFile
 from typing import (
     Any,
@@ -9,6 +10,7 @@ from typing import (
     Iterable,
     List,
     MutableMapping,
+    Optional,
     Sequence,
     Tuple,
 )
@@ -32,6 +34,24 @@ class CachedStream(AsyncIterator[bytes]):
         if self._pushed_eof:
             raise RuntimeError("Cannot push chunk after push EOF.")  # pragma: no cover
         await run_in_threadpool(self._buffer.write, chunk)
+
+    async def push_file(
+        self, file: Any, offset: Optional[int] = None, count: Optional[int] = None
+    ) -> None:
+        """
+        Push what a `http.response.zerocopysend` message asks the server to send.
+        """
+        fd = file if isinstance(file, int) else file.fileno()
+        if offset is not None:
+            await run_in_threadpool(os.lseek, fd, offset, os.SEEK_SET)
+        while count is None or count > 0:
+            length = 4096 * 16 if count is None else min(4096 * 16, count)
+            chunk = await run_in_threadpool(os.read, fd, length)
+            if not chunk:
+                break
+            if count is not None:
+                count -= len(chunk)
+            await self.push(chunk)
 
     async def push_eof(self) -> None:
         await run_in_threadpool(self._buffer.seek, 0)
@@ -90,6 +110,12 @@ class NextResponse(StreamingResponse):
                 ]
             elif message["type"] == "http.response.body":
                 await body.push(message.get("body", b""))
+                if not message.get("more_body", False):
+                    await body.push_eof()
+            elif message["type"] == "http.response.zerocopysend":
+                await body.push_file(
+                    message["file"], message.get("offset"), message.get("count")
+                )
                 if not message.get("more_body", False):
                     await body.push_eof()
 
